@@ -881,6 +881,7 @@ impl Formula {
                                 *candidate != var
                                     && !term_variables.contains(candidate)
                                     && !formula_variables.contains(candidate)
+                                    && !variables.contains(candidate)
                             })
                             .unwrap();
 
